@@ -154,6 +154,9 @@ func worldC11(w *World) {
 	wb.ReadPause = func(string) time.Duration { return readPause }
 	w.K.SendBuf = []int{64 << 10, 64 << 10, 4 << 10}[t.Choice(3, "sendbuf")]
 	closeAtOnce := t.Rare(1, 2, "closeatonce")
+	if readPause > 0 {
+		closeAtOnce = t.Rare(3, 4, "closeatonce2")
+	}
 	wb.OnOpen = func(s *wsSession) {
 		var si int
 		if _, err := fmt.Sscanf(s.Path, "/sock%d", &si); err != nil || si < 0 || si >= nSess {
@@ -172,7 +175,9 @@ func worldC11(w *World) {
 			s.closeFromBackend(ss.idx%2 == 0)
 		}
 	}
-	args := []string{"-shim-websockets", "-shim-path=shim"}
+	// (a data post that waits behind a slowly reading backend may take minutes; the
+	// agent's own client timeout towards the proxy is configured out of the way)
+	args := []string{"-shim-websockets", "-shim-path=shim", "-proxy-timeout=3h"}
 	if inject {
 		args = append(args, "-enable-websockets-injection")
 	}
